@@ -266,7 +266,7 @@ class SO3Type(LieType):
     @classmethod
     def identity(cls, *size, **kwargs):
         data = torch.tensor([0., 0., 0., 1.], **kwargs)
-        return LieTensor(data.repeat(size+(1,)), ltype=SO3_type)
+        return LieTensor(data.repeat(cls.to_tuple(size)+(1,)), ltype=SO3_type)
 
     def randn(self, *size, sigma=1.0, requires_grad=False, **kwargs):
         data = so3_type.Exp(so3_type.randn(*size, sigma=sigma, **kwargs)).detach()
@@ -431,7 +431,7 @@ class SE3Type(LieType):
     @classmethod
     def identity(cls, *size, **kwargs):
         data = torch.tensor([0., 0., 0., 0., 0., 0., 1.], **kwargs)
-        return LieTensor(data.repeat(size+(1,)), ltype=SE3_type)
+        return LieTensor(data.repeat(cls.to_tuple(size)+(1,)), ltype=SE3_type)
 
     def randn(self, *size, sigma=1.0, requires_grad=False, **kwargs):
         data = se3_type.Exp(se3_type.randn(*size, sigma=sigma, **kwargs)).detach()
@@ -574,7 +574,7 @@ class Sim3Type(LieType):
     @classmethod
     def identity(cls, *size, **kwargs):
         data = torch.tensor([0., 0., 0., 0., 0., 0., 1., 1.], **kwargs)
-        return LieTensor(data.repeat(size+(1,)), ltype=Sim3_type)
+        return LieTensor(data.repeat(cls.to_tuple(size)+(1,)), ltype=Sim3_type)
 
     def randn(self, *size, sigma=1.0, requires_grad=False, **kwargs):
         data = sim3_type.Exp(sim3_type.randn(*size, sigma=sigma, **kwargs)).detach()
@@ -715,7 +715,7 @@ class RxSO3Type(LieType):
     @classmethod
     def identity(cls, *size, **kwargs):
         data = torch.tensor([0., 0., 0., 1., 1.], **kwargs)
-        return LieTensor(data.repeat(size+(1,)), ltype=RxSO3_type)
+        return LieTensor(data.repeat(cls.to_tuple(size)+(1,)), ltype=RxSO3_type)
 
     def randn(self, *size, sigma=1.0, requires_grad=False, **kwargs):
         data = rxso3_type.Exp(rxso3_type.randn(*size, sigma=sigma, **kwargs)).detach()
